@@ -48,6 +48,13 @@ static inline OperandSignature get_suitable_reg_for_mem_to_mem_move(Arch arch, T
   return OperandSignature{signature};
 }
 
+//! Tests whether an integer of `src_type_id` must be sign or zero extended to become an integer of `dst_type_id`.
+static inline bool is_int_extension_required(TypeId dst_type_id, TypeId src_type_id) noexcept {
+  return TypeUtils::is_int(dst_type_id) &&
+         TypeUtils::is_int(src_type_id) &&
+         TypeUtils::size_of(dst_type_id) > TypeUtils::size_of(src_type_id);
+}
+
 class FuncArgsContext {
 public:
   static inline constexpr uint32_t kVarIdNone = 0xFF;
